@@ -207,6 +207,8 @@ def pooled_sweep_cases(tier):
     for mx, mn in ((1, 0), (2, 0), (2, 1)):
         for batch in (False, True):
             yield {"max": mx, "min": mn, "batch": batch, "occurrences": 1 if tier == "quick" else 2}
+    for mx, mn in ((1, 0), (2, 0)):
+        yield {"max": mx, "min": mn, "batch": False, "restart": True, "occurrences": 1 if tier == "quick" else 2}
 
 
 def oracle_pooled_sweep(case):
@@ -227,12 +229,23 @@ def oracle_pooled_sweep(case):
         disp = S.SimpleJSONRPCDispatcher(config=Config())
         reached = []
 
+        hold = D.Event()
+
         def note(tok):
             log.append(tok)
             for ev in reached:
                 if not ev.flag:
                     ev.set()
+            if case.get("restart") and tok == "n0":
+                hold.wait()      # still running when the pool is stopped
         disp.register_function(note, "note")
+
+        def on_quiescent(s_):
+            if not hold.flag:
+                hold.flag = True
+                return True
+            return False
+        sched.on_quiescent = on_quiescent
 
         def main():
             pool = tp.ThreadPool(case["max"], case["min"], logname="pool")
@@ -247,6 +260,10 @@ def oracle_pooled_sweep(case):
                     body = json.dumps({"jsonrpc": "2.0", "method": "note", "params": ["n%d" % i]})
                 outs.append(disp._marshaled_dispatch(body))
                 ev.wait()
+                if case.get("restart") and i == 0:
+                    # the notification pool is stopped while a notification is running, then restarted
+                    pool.stop()
+                    pool.start()
             pool.join()
             pool.stop()
         error = None
